@@ -36,6 +36,8 @@ META = {
 }
 
 
+FRESH_CALL_LIMIT = 20000000   # CALL_LIMIT of rust/harness/src/c14_fresh_main.rs.in
+LIMITS = []   # texts on which a fresh parser ran into its call limit while the checked-in parser finished (all run_pipes calls of this run)
 STAGES = []   # what the targeted search of the last run_pipes call covered (STAGES lines of `c14 target`)
 
 
@@ -138,6 +140,10 @@ def run_pipes(cmds, timeout=3000):
         which += [l.split("\t", 1)[1] for l in other if l.startswith("WHICH\t")]
         diffs += [l.split("\t", 1)[1] for l in other if l.startswith("DIFF\t")]
         STAGES.extend(l.split("\t", 1)[1] for l in other if l.startswith("STAGES\t"))
+        for l in other:
+            if l.startswith("LIMIT\t"):
+                q = l.split("\t")
+                LIMITS.append({"kind": "limit", "case": q[1], "impl": q[2] if len(q) > 2 else "", "expected": "Custom call limit reached"})
         for k, v in s.items():
             stats[k] = stats.get(k, 0) + v if isinstance(v, int) else v
     return mism, stats, which, diffs
@@ -145,6 +151,7 @@ def run_pipes(cmds, timeout=3000):
 
 def run(tier, seed, replay=None):
     res = Result("C14", tier, seed, "proof")
+    del LIMITS[:]
     brc, bout, bdir = harness_build(["c14"])
     if brc != 0:
         res.violation("harness does not build against the repository (C14 cannot run)", {"theorem_or_correspondence": "C14 (build)", "log": bout[-3000:]}, no_failing_input=True)
@@ -179,6 +186,10 @@ def run(tier, seed, replay=None):
         m, s, other = parse_runner_output(out)
         log("replay: " + "\n".join(l[:600] for l in out.split("\n") if not l.startswith("G\t"))[-2000:])
         sp = [x for x in m if x["kind"] == "spec"]
+        lim = [l for l in other if l.startswith("LIMIT\t")]
+        if lim and not sp:
+            res.violation("replayed text: the freshly generated parser still does not finish within %d calls where the checked-in parser returns" % FRESH_CALL_LIMIT,
+                          {"case": rj.get("case", ""), "rule": rj.get("rule", "grammar_rules"), "input": rj.get("input", "-")})
         if sp:
             res.violation("replayed text is still parsed differently by the checked-in parser and %s" % " / ".join(sorted(set(against_name(x["case"]) for x in sp))),
                           {"case": rj.get("case", ""), "rule": rj.get("rule", "grammar_rules"), "input": rj.get("input", "-"), "impl": sp[0]["impl"], "other": sp[0]["expected"]})
@@ -268,6 +279,20 @@ def run(tier, seed, replay=None):
             for k in ("cases", "evaluations", "distinct_nontrivial", "spec_differences", "fresh_compared"):
                 stats[k] = stats.get(k, 0) + s2.get(k, 0)
 
+    # texts on which only the fresh parser ran into its call limit: reported (with the text) when nothing else was found, after a re-run
+    # of the text in a process of its own
+    limit_v = None
+    if LIMITS and not [m for m in mism if m["kind"] == "spec"]:
+        for cand in sorted(LIMITS, key=lambda m: len(m["case"]))[:3]:
+            mm = re.match(r"r=(\S+) in=(\S+) against=(\S+)", cand["case"])
+            if not mm:
+                continue
+            rc, o1 = sh("%s diff %s 0 0 one %s %s %s| %s -1" % (hbin, REPO, mm.group(1), mm.group(2), legs, runner), timeout=600)
+            if any(l.startswith("LIMIT\t") for l in o1.split("\n")):
+                limit_v = (cand, mm.group(1), mm.group(2))
+                break
+    if LIMITS:
+        log("C14: %d texts on which a freshly generated parser ran into its call limit (%d calls) while the checked-in parser returned" % (stats.get("fresh_limited", len(LIMITS)), FRESH_CALL_LIMIT))
     spec_m = [m for m in mism if m["kind"] == "spec"]
     model_m = [m for m in mism if m["kind"] == "model"]
     read_m = [m for m in mism if m["kind"] == "read"]
@@ -289,6 +314,14 @@ def run(tier, seed, replay=None):
                               worst["expected"][:200], stats.get("spec_differences", len(spec_m))),
                           {"theorem_or_correspondence": "C14 oracle: pest_meta::parser::parse vs pest_vm vs freshly generated parser (real code)", "case": worst["case"],
                            "rule": rule, "input": inp, "impl": worst["impl"], "other": worst["expected"]})
+    if limit_v and not spec_m:
+        cand, rule, inp = limit_v
+        spec_found = True
+        res.violation("a parser freshly generated from grammar.pest by the in-tree generator does not finish within %d calls (pest's call limit) on rule %s, text %r, "
+                      "which the checked-in parser (and the VM) parse with the result `%s` (%d such texts in this run)" % (
+                          FRESH_CALL_LIMIT, rule, bytes.fromhex(inp).decode("utf-8", "replace")[:200] if inp != "-" else "", cand["impl"][:200], stats.get("fresh_limited", len(LIMITS))),
+                      {"theorem_or_correspondence": "C14 oracle: pest_meta::parser::parse vs freshly generated parser (real code), termination", "case": cand["case"],
+                       "rule": rule, "input": inp, "impl": cand["impl"], "other": "Custom call limit reached"})
     if not regen_ok:
         res.violation("meta/src/grammar.rs is not what the generator emits for meta/src/grammar.pest: %s" % (regen[0].split("\t", 2)[2][:600] if regen else out[-300:]),
                       {"theorem_or_correspondence": "C14 (1): bootstrap regeneration, byte comparison", "detail": regen[0] if regen else out[-2000:]},
@@ -346,9 +379,12 @@ def run(tier, seed, replay=None):
                     ", the in-tree derive_parser output for grammar.pest compiled as source" if gen_exe else " (NO freshly generated parser: it could not be built)") + (
                     ", a compiled #[derive(Parser)] of grammar.pest" if fresh and gen_exe else "") + "; texts of at most %d bytes also the extracted model" % maxmodel,
         "fresh_parser_comparisons": stats.get("fresh_compared", 0),
+        "fresh_parser_call_limit_hits": stats.get("fresh_limited", 0),
         "targeted_search": search if search else "not run (no structural / proof / correspondence break, or a failing text was already found)",
     })
-    res.assumptions = ["model runs are limited to texts of at most %d bytes (unary positions in the extracted model)" % maxmodel]
+    res.assumptions = ["model runs are limited to texts of at most %d bytes (unary positions in the extracted model)" % maxmodel,
+                       "the freshly generated parsers run under pest's call limit of %d calls per parse (a parse that reaches it is reported separately, "
+                       "never as agreement); the checked-in parser and the VM run without a limit" % FRESH_CALL_LIMIT]
     return res.finish()
 
 
